@@ -17,7 +17,7 @@ PROPS = {
         "assumptions": [],
     },
     "C02": {
-        "units": [("align", r"match_node_impl|match_nodes_impl_recursive|may_match_ellipsis_impl|match_single_node_while_skip_trivial"), ("strictness", r"Aggregator>::match_terminal|Aggregator>::match_meta_var|match_leaf_meta_var")],
+        "units": [("align", r"match_node_impl|match_nodes_impl_recursive|may_match_ellipsis_impl|match_single_node_while_skip_trivial"), ("strictness", r"Aggregator>::match_terminal|<ComputeEnd as Aggregator>::match_meta_var|match_leaf_meta_var")],
         "kani": [],
         "decided": ["if the pattern tree mirrors the node -- same kinds, same token text, same shape, with any number of sub-trees replaced by distinct `$VAR` holes that are not bound yet (a hole marked as named replacing a named node) -- then match_node_impl answers MatchedBoth at EVERY strictness level and the environment grows by exactly {hole -> the sub-tree it replaced}; in particular code free of `$` matches itself (unbounded; proved through the real mutually recursive alignment engine against the trait-level Aggregator contract, which unit strictness discharges for Cow<MetaVarEnv> via match_leaf_meta_var and MetaVarEnv::insert's contract)"],
         "not_decided": ["`$$$VAR` replacing a trailing run of siblings (the ellipsis path is only proved sound, C03)",
